@@ -125,6 +125,9 @@ def run(ctx):
         n = len(xs)
         # chunk sizes below, at and above the row count; above 1000 both multiples and non-multiples of 1000
         cs = rng.choice([1, 2, 3, 10, 100, 1000, n, n + 1, 1000000]) if n <= 400 else rng.choice([100, 999, 1000, 1001, 1500, 2500, n - 1, n, n + 1, 1000000])
+        if ci % 40 == 7 or (not ctx.quick and ci % 40 == 27):
+            # more than 1000 chunks (chunk size 1 or 2): anything capped or listed per chunk shows in inspect
+            n = rng.choice([1001, 1500, 2500]); xs = column(rng, dt, n); n = len(xs); cs = 1 if n <= 1500 else rng.choice([1, 2])
         level = rng.choice([0, 3, 8, 12])
         order = rng.choice([None, None, 0, 1, 2, 5])
         nogcd = rng.chance(1, 3)
